@@ -19,7 +19,8 @@ EXPLANATION = (
     "type's clone_to (Pending, SymBuf, inflate Window) copies, from the first byte of the source buffer, exactly as "
     "many elements as the new buffer is long (SymBuf::push_lit stores one byte per three-byte advance, so bytes "
     "beyond `filled` are read later). Decides the structural "
-    "necessary condition only, not behavioural equality.")
+    "necessary condition only, not behavioural equality. "
+    "SIB/ref-writes: deflateResetKeep, inflateResetKeep, inflateReset2, lm_init, lm_set_level assign every field their zlib-ng counterparts assign.")
 
 CLAIM = dict(
     text="Static field-coverage proof obligations over MIR: every leaf field of the deflate/inflate state is written on "
@@ -433,6 +434,9 @@ def run(ck):
         bad = [i for i in P.impls if i["trait"] in ("core::clone::Clone", "core::marker::Copy") and mir.strip_ty(i["for"]) == o]
         ck.decide(not bad, "WHO/no-clone", o.replace(Z, ""), "neither Clone nor Copy: duplication only through copy()",
                   "%s implements %s: safe code can make a bitwise duplicate that shares (and double-frees) the allocation" % (o, [b["trait"] for b in bad]))
+    from .. import refwrites
+    ck.floor("SIB/ref-writes", refwrites.check(ck, P, "SIB/ref-writes", only={"deflate.c:deflateResetKeep", "inflate.c:inflateResetKeep",
+             "inflate.c:inflateReset2", "deflate.c:lm_init", "deflate.c:lm_set_level"}), 30)
     ck.call_sites += sum(len(f.calls) for f in (P.fn(p) for p in list(ck.fns_analysed)) if f)
 
 
